@@ -12,25 +12,52 @@ LEVEL = "proof"
 HASHSEEDS = {"quick": [0, 1, 2, 3], "thorough": list(range(16))}
 BUDGET_S = {"quick": 150, "thorough": 1500}
 EXHAUSTIVE = {"quick": False, "thorough": False}
-RULE = ("random Bayesian networks (2-7 nodes, families with up to 4 parents, CPD evidence order shuffled, "
-        "cardinalities 1-3, str/int/tuple/mixed node names, string or default state names), Markov networks "
-        "(chordless cycles, trees, random connected, k-tree chordal, complete, grids, disconnected, isolated "
-        "nodes; pairwise/clique/unary/repeated-scope/duplicate(equal, also axis-permuted) factors; malformed: "
-        "uncovered node, non-clique scope) and factor graphs (factor objects as nodes, incl. equal factors); "
-        "every heuristic H1..H6 and explicit orders (also with isolated and repeated nodes), inplace both ways; "
-        "corpus: the former D2 witness (two equal factors) and the 4-cycle with an isolated node.  A case is non-trivial when it has >=1 "
-        "edge and >=1 factor over >=2 variables; distinct = distinct canonical (kind, graph, factors, options)")
+RULE = ("random Bayesian networks (1-7 nodes, families with up to 4 parents, CPD evidence order shuffled, edge/CPD "
+        "insertion order shuffled, cardinalities 1-3, columns with exact zeros and with entries 2^-30..2^-50), "
+        "Markov networks (single node, edgeless, chordless cycles, trees, random connected, k-tree chordal, complete, "
+        "grids, disconnected, isolated nodes, 9-10 node cycles and a 9-variable factor on K9; edges in either "
+        "orientation, built node-by-node or from an ebunch; pairwise/clique/unary/repeated-scope factors; duplicates: "
+        "equal-but-distinct, axis-permuted, NEAR-equal (relative 2^-35), and THE SAME OBJECT added two or three times "
+        "in one add_factors call or one call each; values small dyadics, with exact zeros, or scaled by 2^-300..2^300; "
+        "values passed as lists, ndarrays, another factor's .values, or a buffer overwritten afterwards; malformed: "
+        "uncovered node, non-clique scope) and factor graphs (factor objects as nodes, incl. equal factors; malformed: "
+        "variable-variable edge, factor node without factor); BNs whose CPDs disagree on a state-name order must be "
+        "rejected by check_model.  Node names str/int/tuple/mixed/substring-of-each-other (x1,x10,x1_0,G,G2,'' and "
+        "the keyword prefix phi_); state names default, per-variable strings, shared strings, non-positional ints "
+        "([1,0],[1,2,0]), 1-based, booleans.  Every heuristic H1..H6, the no-argument default, order=[] and explicit "
+        "orders (also with isolated and repeated nodes), inplace both ways; numpy backend and (1 case in 6) torch.  "
+        "Every conversion is bracketed by a deep snapshot of the source (nodes, edges, factor objects, value bytes, "
+        "state names, the order argument).  SESSIONS on one object (MN, BN, FG): conversions re-run after add_edge, "
+        "remove_edge, add_node, remove_node, clear (networkx mutators), add_factors (also with a LATER invalid "
+        "factor), remove_factors, a rejected self loop, in-place edits of a factor's values, triangulate(inplace), "
+        "mutation of a returned junction tree, add_cpds replacing a CPD, new edges/nodes in a BN; oracle = the model "
+        "on the current state.  Tolerance 1e-9 RELATIVE to the model's exact rational.  Corpus: two equal factors, "
+        "the 4-cycle with an isolated node, the same object twice.  Not applicable: pandas frames (no DataFrame in any "
+        "anchor), optional numeric bounds (none), n_jobs/caches (none); factor-less models have no distribution.  "
+        "A case is non-trivial when it has >=1 edge and >=1 factor over >=2 variables; distinct = distinct canonical "
+        "(kind, graph, factors, options)")
 TRUSTED_BASE = [
     "networkx Graph storage, nx.find_cliques (cross-checked against the model's brute-force maximal cliques), "
     "nx.minimum_spanning_tree (its output is validated by the verified tree/RIP checkers), nx.is_chordal "
     "(cross-checked against the verified PEO-search checker)",
-    "numpy einsum inside DiscreteFactor.product (C04 covers it); values are dyadic rationals, exact in float64",
+    "numpy/torch einsum inside DiscreteFactor.product (C04 covers it); values are dyadic rationals, exact in float64",
     "the elimination order pgmpy chose is observed by recording nx.Graph.remove_node calls",
     "Fulkerson-Gross: a graph is chordal iff it has a perfect elimination ordering (Spec.chordal is the PEO form)",
+    "session mirrors (edge/node/factor lists after a mutator) are kept by the harness; add_factors by the model",
 ]
 ASSUMPTIONS = ["node names are interned to nat identifiers by the harness",
                "cardinalities are consistent across factors (inconsistent cardinalities are not generated)",
-               "to_factor_graph is exercised with string node names only (it joins the scope with '_')"]
+               "to_factor_graph is exercised with string node names only (it joins the scope with '_'); the "
+               "FactorGraph API on its output (open finding) without names starting with 'phi'",
+               "under the torch backend MarkovNetwork/FactorGraph.get_partition_function is not called "
+               "(np.sum on a tensor raises TypeError on the unchanged tree; reported to the coordinator)",
+               "factors of one model agree on each variable's state-name order (MarkovNetwork.check_model does "
+               "not reject a disagreement and the product is positional; reported, belongs to C04/C05)"]
+
+TORCH_PARTITION = False   # MarkovNetwork/FactorGraph.get_partition_function under torch: TypeError on the unchanged tree
+STATE_STYLES = ["default", "str", "shared", "intperm", "rot", "onebased", "bool"]
+NAME_STYLES = common.NAME_STYLES + ["substr"]
+VALSRC = ["list", "list", "ndarray", "other", "buffer"]
 
 HEUR = ["H1", "H2", "H3", "H4", "H5", "H6"]
 
@@ -95,11 +122,23 @@ def _graph(rng, shape, n):
     elif shape == "wheelless":  # two chordless cycles sharing an edge
         n = 6
         E = {(0, 1), (1, 2), (2, 3), (0, 3), (2, 4), (4, 5), (3, 5)}
+    elif shape == "single":
+        n = 1
+    elif shape == "edgeless":
+        n = rng.randint(2, 3)
+    elif shape == "wide9":      # K9 (room for a 9-variable factor), sometimes with a pendant node
+        n = rng.choice([9, 10])
+        E = {(i, j) for i in range(9) for j in range(i + 1, 9)}
+        if n == 10:
+            E |= {(0, 9), (1, 9)}
+    elif shape == "cycle10":    # chordless cycle on 9-10 nodes (sets of >= 9 small ints)
+        n = rng.choice([9, 10])
+        E = {tuple(sorted((i, (i + 1) % n))) for i in range(n)}
     perm = list(range(n))
     rng.shuffle(perm)
     E2 = sorted({tuple(sorted((perm[a], perm[b]))) for a, b in E})
     rng.shuffle(E2)
-    return n, [list(e) for e in E2]
+    return n, [list(e) if rng.random() < 0.5 else [e[1], e[0]] for e in E2]
 
 
 def _cliques_upto3(n, edges):
@@ -111,7 +150,33 @@ def _cliques_upto3(n, edges):
     return adj, tri
 
 
-def _mn_factors(rng, n, edges, cards, dup_mode):
+def _scale(vals, e):
+    """multiply every [num, den] by 2^e"""
+    if e >= 0:
+        return [[x[0] << e, x[1]] for x in vals]
+    return [[x[0], x[1] << (-e)] for x in vals]
+
+
+def _apply_mag(rng, fs, copies):
+    """scale the factors by powers of two, keeping EVERY partial product (also with up to three copies of a
+    factor when duplicates follow) a normal float64: without duplicates single factors reach 2^-300..2^300 and
+    totals 2^+-900, with duplicates 2^+-200 and totals 2^+-600"""
+    budget = 200 if copies else 900
+    steps = [-200, -100, -60, -10, 0, 10, 60, 100, 200] if copies else [-300, -150, -60, -10, 0, 10, 60, 150, 300]
+    pos = neg = tweaks = 0
+    for f in fs:
+        e = rng.choice(steps)
+        if e > 0 and pos + e > budget or e < 0 and neg - e > budget:
+            e = 0
+        pos, neg = pos + max(e, 0), neg + max(-e, 0)
+        f["vals"] = _scale(f["vals"], e)
+        if tweaks < 2 and rng.random() < 0.4 and len(f["vals"]) > 1:      # one entry 2^-40 of its neighbours
+            tweaks += 1
+            i = rng.randrange(len(f["vals"]))
+            f["vals"][i] = _scale([f["vals"][i]], -40)[0]
+
+
+def _mn_factors(rng, n, edges, cards, dup_mode, vstyle="small", p_edge=0.7, p_tri=0.4):
     adj, tri = _cliques_upto3(n, edges)
     fs = []
 
@@ -121,13 +186,13 @@ def _mn_factors(rng, n, edges, cards, dup_mode):
         k = 1
         for v in scope:
             k *= cards[v]
-        return {"vars": scope, "vals": _vals(rng, k)}
+        return {"vars": scope, "vals": _vals(rng, k, zeros=(vstyle == "zeros"))}
 
     for e in edges:
-        if rng.random() < 0.7:
+        if rng.random() < p_edge:
             fs.append(mk(e))
     for t in tri:
-        if rng.random() < 0.4:
+        if rng.random() < p_tri:
             fs.append(mk(t))
     covered = {v for f in fs for v in f["vars"]}
     for v in range(n):
@@ -141,6 +206,8 @@ def _mn_factors(rng, n, edges, cards, dup_mode):
         fs.append(mk([rng.randrange(n)]))
     if rng.random() < 0.3 and fs:  # repeated scope, different values
         fs.append(mk(rng.choice(fs)["vars"]))
+    if vstyle == "mag":
+        _apply_mag(rng, fs, dup_mode is not None)
     if dup_mode == "object" and fs:
         # THE SAME DiscreteFactor OBJECT added two or three times (shared "oid"); unary and pairwise preferred
         small = [f for f in fs if len(f["vars"]) <= 2] or fs
@@ -153,6 +220,14 @@ def _mn_factors(rng, n, edges, cards, dup_mode):
             f = rng.choice(fs)
             if dup_mode == "perm" and len(f["vars"]) >= 2:
                 fs.append(_permuted_copy(rng, f, cards))
+            elif dup_mode == "near":
+                # equal under DiscreteFactor.__eq__ (atol 1e-8) but a different function: one entry * (1 + 2^-35)
+                g = {"vars": list(f["vars"]), "vals": [list(x) for x in f["vals"]]}
+                nz = [i for i, x in enumerate(g["vals"]) if x[0] != 0]
+                if nz:
+                    i = rng.choice(nz)
+                    g["vals"][i] = [g["vals"][i][0] * ((1 << 35) + 1), g["vals"][i][1] << 35]
+                fs.append(g)
             else:
                 fs.append({"vars": list(f["vars"]), "vals": [list(x) for x in f["vals"]]})
     rng.shuffle(fs)
@@ -194,104 +269,210 @@ def _bn(rng, n):
         for p in ps:
             edges.append([p, order[i]])
             pars[order[i]].append(p)
-    return edges, pars
+    rng.shuffle(edges)
+    return edges, pars, order
+
+
+def _column(rng, card, skew):
+    """a probability column of exact dyadics; skew: all the mass but 2^-k (k = 30..50) on one state"""
+    if not skew or card == 1:
+        return [[c.numerator, c.denominator] for c in common.rand_column(rng, card)]
+    k = rng.choice([30, 40, 50])
+    hot = rng.randrange(card)
+    return [[(1 << k) - (card - 1), 1 << k] if r == hot else [1, 1 << k] for r in range(card)]
+
+
+def _bn_cpds(rng, n, pars, cards, skew=False):
+    cpds = []
+    for v in range(n):
+        ev = list(pars[v])
+        rng.shuffle(ev)
+        k = 1
+        for p in ev:
+            k *= cards[p]
+        cols = [_column(rng, cards[v], skew and rng.random() < 0.5) for _ in range(k)]
+        cpds.append({"var": v, "ev": ev, "vals": [[c[r] for c in cols] for r in range(cards[v])]})
+    rng.shuffle(cpds)
+    return cpds
+
+
+def _f32(c):
+    """torch cases only with values that survive float32: the DiscreteFactor/TabularCPD constructors go through
+    torch.Tensor(values) (float32) on the unchanged tree (reported; construction is C04/C05)"""
+    if c.get("backend") == "torch" and (c.get("vstyle") == "mag" or c.get("dup") == "near" or c.get("skew")):
+        c["backend"] = "numpy"
+    return c
+
+
+def _opts(rng, i, name_styles=None):
+    return {"style": rng.choice(name_styles or NAME_STYLES), "states": rng.choice(STATE_STYLES),
+            "valsrc": rng.choice(VALSRC), "backend": "torch" if i % 6 == 5 else "numpy",
+            "nameseed": rng.randint(0, 10**9)}
+
+
+def _mn_case(rng, shape, nmax, dups, mal=0.08):
+    n, edges = _graph(rng, shape, rng.randint(3, nmax))
+    wide = shape in ("wide9", "cycle10")
+    cards = [2] * n if wide else [rng.choice([1, 2, 2, 2, 3]) for _ in range(n)]
+    if wide and rng.random() < 0.5:
+        cards[rng.randrange(n)] = 1
+    dup = rng.choice(dups)
+    vstyle = rng.choice(["small", "small", "zeros", "mag"])
+    if shape == "wide9":
+        fs = _mn_factors(rng, n, edges, cards, dup, vstyle, p_edge=0.12, p_tri=0.02)
+        deg = {v: 0 for v in range(n)}
+        for a, b in edges:
+            deg[a] += 1
+            deg[b] += 1
+        big = [v for v in range(n) if deg[v] >= 8]
+        rng.shuffle(big)
+        fs.insert(rng.randrange(len(fs) + 1), {"vars": big, "vals": _vals(rng, 2 ** sum(1 for v in big if cards[v] == 2))})
+    else:
+        fs = _mn_factors(rng, n, edges, cards, dup, vstyle)
+    malformed = None
+    if rng.random() < mal and not wide:
+        malformed = rng.choice(["uncovered", "nonclique"])
+        if malformed == "uncovered":
+            v = rng.randrange(n)
+            fs = [f for f in fs if v not in f["vars"]]
+            if not fs:
+                malformed = None
+                fs = _mn_factors(rng, n, edges, cards, None)
+        else:
+            es = {tuple(sorted(e)) for e in edges}
+            non = [(a, b) for a in range(n) for b in range(a + 1, n) if (a, b) not in es]
+            if non:
+                a, b = rng.choice(non)
+                fs.append({"vars": [a, b], "vals": _vals(rng, cards[a] * cards[b])})
+            else:
+                malformed = None
+    orders = []
+    for _ in range(1 if wide else 2):
+        o = sorted({v for e in edges for v in e})
+        rng.shuffle(o)
+        orders.append(o)
+    if shape in ("iso", "isochordal", "edgeless", "single") or rng.random() < 0.2:
+        o = list(range(n))
+        rng.shuffle(o)
+        if rng.random() < 0.5:
+            o.insert(rng.randrange(len(o) + 1), rng.choice(o))   # a repeated node is skipped
+        orders.append(o)
+    nodes = list(range(n))
+    rng.shuffle(nodes)
+    return {"kind": "mn", "shape": shape, "n": n, "nodes": nodes, "edges": edges, "cards": cards,
+            "factors": fs, "dup": dup, "vstyle": vstyle, "malformed": malformed, "orders": orders,
+            "addmode": rng.choice(["once", "each"]), "build": rng.choice(["nodes", "ebunch"])}
 
 
 def cases(tier, seed):
     rng = random.Random(seed)
     out = []
-    nb, nm, nf, n2 = (200, 550, 150, 40) if tier == "quick" else (1500, 4200, 1000, 300)
-    for _ in range(nb):
-        n = rng.randint(2, 7 if tier == "thorough" else 6)
-        edges, pars = _bn(rng, n)
+    q = tier == "quick"
+    nb, nm, nf, n2, nw, ns, nbs, nfs = (150, 400, 110, 30, 8, 90, 40, 40) if q else (1400, 4000, 900, 250, 60, 900, 400, 400)
+    nmax = 6 if q else 7
+    # ---- Bayesian networks
+    for i in range(nb):
+        n = rng.choice([1, 2, 3, 4, 5, 6, nmax, nmax])
+        edges, pars, topo = _bn(rng, n)
         cards = [rng.choice([1, 2, 2, 2, 3, 3]) for _ in range(n)]
-        cpds = []
-        for v in range(n):
-            ev = list(pars[v])
-            rng.shuffle(ev)
-            k = 1
-            for p in ev:
-                k *= cards[p]
-            cols = [common.rand_column(rng, cards[v]) for _ in range(k)]
-            vals = [[[c[r].numerator, c[r].denominator] for c in cols] for r in range(cards[v])]
-            cpds.append({"var": v, "ev": ev, "vals": vals})
-        rng.shuffle(cpds)
+        skew = rng.random() < 0.25
+        cpds = _bn_cpds(rng, n, pars, cards, skew=skew)
         nodes = list(range(n))
         rng.shuffle(nodes)
-        out.append({"kind": "bn", "n": n, "nodes": nodes, "edges": edges, "cards": cards, "cpds": cpds,
-                    "style": rng.choice(common.NAME_STYLES), "states": rng.choice(["default", "str"]),
-                    "nameseed": rng.randint(0, 10**9)})
+        c = {"kind": "bn", "n": n, "nodes": nodes, "edges": edges, "cards": cards, "cpds": cpds, "skew": skew}
+        c.update(_opts(rng, i))
+        if rng.random() < 0.06:
+            el = [(p, v) for p, v in map(tuple, edges) if cards[p] >= 2]
+            if el:      # the child's CPD lists a parent's states in another order: check_model must reject
+                c["mismatch"] = list(rng.choice(el))
+                c["states"] = rng.choice(["str", "shared", "onebased"])
+        out.append(c)
+    # ---- Markov networks
     shapes = ["cycle", "tree", "random", "random", "chordal", "complete", "grid", "iso", "isochordal", "disc",
-              "wheelless"]
+              "wheelless", "single", "edgeless"]
+    dups = [None, None, "exact", "perm", "object", "near"]
     for i in range(nm):
-        shape = shapes[i % len(shapes)]
-        n, edges = _graph(rng, shape, rng.randint(3, 7 if tier == "thorough" else 6))
-        cards = [rng.choice([1, 2, 2, 2, 3]) for _ in range(n)]
-        dup = rng.choice([None, None, "exact", "perm", "object"])
-        fs = _mn_factors(rng, n, edges, cards, dup)
-        malformed = None
-        if rng.random() < 0.08:
-            malformed = rng.choice(["uncovered", "nonclique"])
-            if malformed == "uncovered":
-                v = rng.randrange(n)
-                fs = [f for f in fs if v not in f["vars"]]
-                if not fs:
-                    malformed = None
-                    fs = _mn_factors(rng, n, edges, cards, None)
-            else:
-                es = {tuple(e) for e in edges}
-                non = [(a, b) for a in range(n) for b in range(a + 1, n) if (a, b) not in es]
-                if non:
-                    a, b = rng.choice(non)
-                    fs.append({"vars": [a, b], "vals": _vals(rng, cards[a] * cards[b])})
-                else:
-                    malformed = None
-        orders = []
-        for _ in range(2):
-            o = sorted({v for e in edges for v in e})
-            rng.shuffle(o)
-            orders.append(o)
-        if shape in ("iso", "isochordal") or rng.random() < 0.2:
-            o = list(range(n))
-            rng.shuffle(o)
-            if rng.random() < 0.5:
-                o.insert(rng.randrange(len(o) + 1), rng.choice(o))   # a repeated node is skipped
-            orders.append(o)
-        nodes = list(range(n))
-        rng.shuffle(nodes)
-        out.append({"kind": "mn", "shape": shape, "n": n, "nodes": nodes, "edges": edges, "cards": cards,
-                    "factors": fs, "dup": dup, "malformed": malformed, "orders": orders,
-                    "addmode": rng.choice(["once", "each"]),
-                    "style": rng.choice(common.NAME_STYLES), "states": rng.choice(["default", "str"]),
-                    "nameseed": rng.randint(0, 10**9)})
+        c = _mn_case(rng, shapes[i % len(shapes)], nmax, dups)
+        c.update(_opts(rng, i))
+        out.append(c)
+    for i in range(nw):
+        c = _mn_case(rng, ["wide9", "cycle10"][i % 2], nmax, [None, "exact", "object"])
+        c.update(_opts(rng, i, ["int", "int", "str", "mixed"]))
+        c["backend"] = "numpy"
+        out.append(c)
     for i in range(n2):
         shape = rng.choice(["cycle", "tree", "random", "chordal"])
         n, edges = _graph(rng, shape, rng.randint(3, 5))
         cards = [rng.choice([2, 2, 3]) for _ in range(n)]
         fs = _mn_factors(rng, n, edges, cards, rng.choice([None, "exact", "object"]))
-        out.append({"kind": "mn2fg", "shape": shape, "n": n, "nodes": list(range(n)), "edges": edges,
-                    "cards": cards, "factors": fs, "style": "str", "states": "default",
-                    "nameseed": rng.randint(0, 10**9)})
+        c = {"kind": "mn2fg", "shape": shape, "n": n, "nodes": list(range(n)), "edges": edges,
+             "cards": cards, "factors": fs}
+        c.update(_opts(rng, i, ["str", "substr-nophi"]))
+        c["backend"] = "numpy"
+        out.append(c)
+    # ---- factor graphs
     for i in range(nf):
-        shape = rng.choice(["cycle", "tree", "random", "chordal", "complete"])
+        shape = rng.choice(["cycle", "tree", "random", "chordal", "complete", "single", "edgeless"])
         n, edges = _graph(rng, shape, rng.randint(2, 6))
         cards = [rng.choice([1, 2, 2, 3]) for _ in range(n)]
-        dup = rng.choice([None, None, None, "exact", "perm", "object"])
-        fs = _mn_factors(rng, n, edges, cards, dup)
-        out.append({"kind": "fg", "shape": shape, "n": n, "cards": cards, "factors": fs, "dup": dup,
-                    "style": rng.choice(common.NAME_STYLES), "states": rng.choice(["default", "str"]),
-                    "nameseed": rng.randint(0, 10**9)})
+        dup = rng.choice([None, None, None, "exact", "perm", "object", "near"])
+        vstyle = rng.choice(["small", "zeros", "mag"])
+        fs = _mn_factors(rng, n, edges, cards, dup, vstyle)
+        c = {"kind": "fg", "shape": shape, "n": n, "cards": cards, "factors": fs, "dup": dup, "vstyle": vstyle,
+             "build": rng.choice(["nodes", "ebunch"]),
+             "malformed": rng.choice(["varvar", "nofactor"]) if rng.random() < 0.12 and n >= 2 and dup is None else None}
+        c.update(_opts(rng, i))
+        out.append(c)
+    # ---- sessions on one object
+    for i in range(ns):
+        shape = rng.choice(["cycle", "cycle", "random", "chordal", "iso", "wheelless", "grid"])
+        n, edges = _graph(rng, shape, rng.randint(4, 6))
+        cards = [rng.choice([1, 2, 2, 3]) for _ in range(n + 2)]        # two spare nodes for add_node
+        fs = _mn_factors(rng, n, edges, cards, rng.choice([None, None, "exact", "object"]))
+        nodes = list(range(n))
+        rng.shuffle(nodes)
+        c = {"kind": "sess", "shape": shape, "n": n + 2, "n0": n, "nodes": nodes, "edges": edges, "cards": cards,
+             "factors": fs, "nops": rng.randint(4, 7), "opseed": rng.randint(0, 10**9), "addmode": "once",
+             "build": "nodes"}
+        c.update(_opts(rng, i))
+        out.append(c)
+    for i in range(nbs):
+        n = rng.randint(2, 5)
+        edges, pars, topo = _bn(rng, n)
+        cards = [rng.choice([1, 2, 2, 3]) for _ in range(n + 2)]
+        cpds = _bn_cpds(rng, n, pars, cards)
+        c = {"kind": "bnsess", "n": n + 2, "n0": n, "nodes": list(range(n)), "edges": edges, "cards": cards,
+             "cpds": cpds, "topo": topo, "nops": rng.randint(2, 5), "opseed": rng.randint(0, 10**9)}
+        c.update(_opts(rng, i))
+        out.append(c)
+    for i in range(nfs):
+        shape = rng.choice(["cycle", "tree", "random", "chordal"])
+        n, edges = _graph(rng, shape, rng.randint(3, 5))
+        cards = [rng.choice([1, 2, 2, 3]) for _ in range(n)]
+        fs = _mn_factors(rng, n, edges, cards, None)
+        c = {"kind": "fgsess", "shape": shape, "n": n, "cards": cards, "factors": fs, "dup": None,
+             "build": "nodes", "malformed": None, "nops": rng.randint(2, 4), "opseed": rng.randint(0, 10**9)}
+        c.update(_opts(rng, i))
+        out.append(c)
     rng.shuffle(out)
-    return out
+    return [_f32(c) for c in out]
 
 
 def shrink(case):
-    if case["kind"] in ("mn", "fg", "mn2fg"):
+    if case["kind"] in ("mn", "fg", "mn2fg", "sess", "fgsess"):
         fs = case["factors"]
         for i in range(len(fs)):
             c = dict(case)
             c["factors"] = fs[:i] + fs[i + 1:]
             yield c
+    if case["kind"] in ("sess", "bnsess", "fgsess") and case["nops"] > 1:
+        c = dict(case)
+        c["nops"] = case["nops"] - 1
+        yield c
+    if case.get("backend") == "torch":
+        c = dict(case)
+        c["backend"] = "numpy"
+        yield c
     if case["kind"] == "mn":
         for i in range(len(case["orders"])):
             c = dict(case)
@@ -300,15 +481,34 @@ def shrink(case):
 
 
 # ------------------------------------------------------------------ helpers
+SUBSTR_POOL = ["x1", "x10", "x", "x1_0", "G", "G2", "phi", "phi_x1", "", "x_1", "1", "10"]
+
+
 def _names(case):
     rng = random.Random(case["nameseed"])
-    return common.node_names(rng, case["n"], case["style"])
+    st = case["style"]
+    if st.startswith("substr"):
+        pool = [x for x in SUBSTR_POOL if not (st.endswith("nophi") and x.startswith("phi"))]
+        rng.shuffle(pool)
+        return pool[:case["n"]]
+    return common.node_names(rng, case["n"], st)
 
 
 def _state_names(case, v):
     c = case["cards"][v]
-    if case["states"] == "str":
+    st = case["states"]
+    if st == "str":
         return ["s%d_%d" % (v, k) for k in range(c)]
+    if st == "shared":
+        return ["a", "b", "c", "d"][:c]
+    if st == "intperm":
+        return list(range(c))[::-1]
+    if st == "rot":
+        return [(k + 1) % c for k in range(c)]
+    if st == "onebased":
+        return list(range(1, c + 1))
+    if st == "bool":
+        return [False, True] if c == 2 else ["t%d" % k for k in range(c)]
     return list(range(c))
 
 
@@ -316,14 +516,40 @@ def _fr(p):
     return Fraction(p[0], p[1])
 
 
+def _close(a, b):
+    """implementation float a vs the model's exact rational b: 1e-9 RELATIVE to b; an exact zero must be zero"""
+    a = float(a)
+    if not isinstance(b, Fraction):
+        b = Fraction(b)
+    if a != a:
+        return False
+    if b == 0:
+        return a == 0.0
+    fb = float(b)
+    return abs(a - fb) <= 1e-9 * abs(fb)
+
+
 def _mk_factor(case, names, f):
+    import numpy as np
     from pgmpy.factors.discrete import DiscreteFactor
     vs = [names[v] for v in f["vars"]]
     card = [case["cards"][v] for v in f["vars"]]
     vals = [float(_fr(x)) for x in f["vals"]]
-    if case["states"] == "str":
-        return DiscreteFactor(vs, card, vals, state_names={names[v]: _state_names(case, v) for v in f["vars"]})
-    return DiscreteFactor(vs, card, vals)
+    kw = {}
+    if case["states"] != "default":
+        kw["state_names"] = {names[v]: _state_names(case, v) for v in f["vars"]}
+    src = case.get("valsrc", "list")
+    if src == "ndarray":
+        return DiscreteFactor(vs, card, np.ascontiguousarray(vals, dtype=np.float64), **kw)
+    if src == "other":      # built from another factor's (n-d) values
+        tmp = DiscreteFactor(list(vs), list(card), vals)
+        return DiscreteFactor(vs, card, tmp.values, **kw)
+    if src == "buffer":     # the caller's buffer is overwritten afterwards
+        buf = np.array(vals, dtype=np.float64)
+        phi = DiscreteFactor(vs, card, buf, **kw)
+        buf[:] = -7.0
+        return phi
+    return DiscreteFactor(vs, card, vals, **kw)
 
 
 def _mk_factors(case, names, flist):
@@ -365,7 +591,7 @@ def _canon_model(mf, cards):
 def _same(ci, cm):
     if cm is None or set(ci) != set(cm):
         return False
-    return all(common.approx(ci[k], cm[k]) for k in ci)
+    return all(_close(ci[k], cm[k]) for k in ci)
 
 
 def _eset(edges, idx=None):
@@ -420,11 +646,38 @@ def _spy(fn):
     return res, exc, order
 
 
-def _build_mn(case, names, factors=None):
+def _snap_factors(factors):
+    import numpy as np
+    return [(id(p), list(p.variables), [int(c) for c in p.cardinality],
+             np.asarray(p.values, dtype=float).tobytes(),
+             sorted(((repr(k), list(v)) for k, v in p.state_names.items()))) for p in factors]
+
+
+def _snap(m):
+    """deep snapshot of a model object: node order, edge set, factor objects (identity, scope, value bytes, states)"""
+    fac = m.cpds if hasattr(m, "cpds") else m.factors
+    return (list(map(repr, m.nodes())), {frozenset(map(repr, e)) for e in m.edges()}, _snap_factors(fac))
+
+
+def _pure(P, before, m, what):
+    if _snap(m) != before:
+        P.add("impl!=spec:source-mutated", {"call": what})
+        return False
+    return True
+
+
+def _build_mn(case, names, nodes=None, edges=None, factors=None):
     from pgmpy.models import MarkovNetwork
-    mn = MarkovNetwork()
-    mn.add_nodes_from([names[v] for v in case["nodes"]])
-    mn.add_edges_from([(names[a], names[b]) for a, b in case["edges"]])
+    nodes = case["nodes"] if nodes is None else nodes
+    edges = case["edges"] if edges is None else edges
+    el = [(names[a], names[b]) for a, b in edges]
+    if case.get("build") == "ebunch" and el:
+        mn = MarkovNetwork(el)
+        mn.add_nodes_from([names[v] for v in nodes])
+    else:
+        mn = MarkovNetwork()
+        mn.add_nodes_from([names[v] for v in nodes])
+        mn.add_edges_from(el)
     fs = _mk_factors(case, names, case["factors"] if factors is None else factors)
     if case.get("addmode") == "each":
         for phi in fs:
@@ -434,15 +687,19 @@ def _build_mn(case, names, factors=None):
     return mn, fs
 
 
-def _has_equal(case):
+def _has_equal(fdicts, cards):
     """two factors equal as functions (any axis order)"""
     seen = []
-    for f in case["factors"]:
-        c = _canon_model(_mfac(f), case["cards"])
+    for f in fdicts:
+        c = _canon_model(_mfac(f), cards)
         if any(c == d for d in seen):
             return True
         seen.append(c)
     return False
+
+
+def _torch(case):
+    return case.get("backend") == "torch"
 
 
 class Problems:
@@ -498,6 +755,12 @@ def check_jt(P, drv, jt, order, ids_nodes, ids_edges, mfactors, cards, idx, stat
                 P.add("impl!=spec:jt-state-names", {"what": what, "var": idx[v],
                                                     "impl": list(phi.state_names[v]), "expected": states[idx[v]]})
                 return
+    try:
+        if jt.check_model() is not True:
+            P.add("impl!=spec:jt-check_model", {"what": what})
+    except ValueError as e:
+        P.add("impl!=spec:jt-check_model", {"what": what, "exc": repr(e)})
+        return
     st, pots = drv.call_e("c14_jtpots", [cards, cl, mfactors])
     coded = st == "ok" and all(_same(_canon_impl(phi, idx), _canon_model(mp, cards))
                                for phi, mp in zip(jt.factors, pots))
@@ -507,7 +770,7 @@ def check_jt(P, drv, jt, order, ids_nodes, ids_edges, mfactors, cards, idx, stat
     spec = _same(_canon_impl(prod, idx), _canon_model([allv, spec_tab], cards))
     zi = float(jt.get_partition_function())
     zspec = common.frac(drv.call("c14_partition", [cards, mfactors]))
-    zok = common.approx(zi, zspec)
+    zok = _close(zi, zspec)
     detail = {"what": what, "cliques": cl, "as_coded_model_agrees": coded, "joint_preserved": spec,
               "Z_impl": zi, "Z_factors": float(zspec), "equal_factors_present": has_equal}
     if spec and zok and coded:
@@ -516,88 +779,187 @@ def check_jt(P, drv, jt, order, ids_nodes, ids_edges, mfactors, cards, idx, stat
     P.add("impl!=spec:jt-joint" if not spec or not zok else "impl!=model:jt-potentials", detail)
 
 
-# ------------------------------------------------------------------ BN cases
-def run_bn(case, drv):
-    from pgmpy.models import BayesianNetwork
+# ------------------------------------------------------------------ BN
+def _mk_cpd(case, names, c, mismatch=None):
     from pgmpy.factors.discrete import TabularCPD
+    v, ev = c["var"], c["ev"]
+    cards = case["cards"]
+    vals = [[float(_fr(x)) for x in row] for row in c["vals"]]
+    kw = {}
+    if case["states"] != "default":
+        sn = {names[u]: _state_names(case, u) for u in [v] + ev}
+        if mismatch and mismatch[1] == v and mismatch[0] in ev:
+            sn[names[mismatch[0]]] = sn[names[mismatch[0]]][::-1]
+        kw["state_names"] = sn
+    return TabularCPD(names[v], cards[v], vals, evidence=[names[u] for u in ev] or None,
+                      evidence_card=[cards[u] for u in ev] or None, **kw)
+
+
+def _mcpd(c):
+    return [c["var"], c["ev"], [_fr(x) for row in c["vals"] for x in row]]
+
+
+def _bn_core(P, drv, case, bn, nodes, edges, cpds_by_var, names, idx, states, tags, what):
+    """all BN conversions on the object [bn] whose current state is (nodes, edges, cpds_by_var)"""
     from pgmpy.factors import factor_product
-    names = _names(case)
-    idx = {nm: i for i, nm in enumerate(names)}
-    n, cards = case["n"], case["cards"]
-    P = Problems()
-    tags = ["bn n=%d" % n, "bn maxparents=%d" % max([len(c["ev"]) for c in case["cpds"]])]
+    cards = case["cards"]
+    before = _snap(bn)
+    mg = bn.moralize()
+    mnodes, medges = drv.call("c14_moral", [nodes, edges])
+    if {idx[v] for v in mg.nodes()} != set(mnodes) or _eset(mg.edges(), idx) != _eset(medges):
+        P.add("impl!=model:moralize", {"what": what, "impl": sorted(map(sorted, _eset(mg.edges(), idx))),
+                                       "model": sorted(map(sorted, _eset(medges)))})
+    mm = bn.to_markov_model()
+    cpd_vars = [idx[c.variable] for c in bn.cpds]
+    if sorted(cpd_vars) != sorted(cpds_by_var):
+        P.add("impl!=model:bn-cpds", {"what": what, "impl": sorted(cpd_vars), "expected": sorted(cpds_by_var)})
+        return
+    mcpds = [_mcpd(cpds_by_var[v]) for v in cpd_vars]
+    (gn, ge), mfs = drv.call("c14_bn2mn", [nodes, edges, mcpds])
+    mfs = [[f[0], [common.frac(x) for x in f[1]]] for f in mfs]
+    if {idx[v] for v in mm.nodes()} != set(gn) or _eset(mm.edges(), idx) != _eset(ge):
+        P.add("impl!=model:to_markov_model-graph", {"what": what, "impl": sorted(map(sorted, _eset(mm.edges(), idx))),
+                                                    "model": sorted(map(sorted, _eset(ge)))})
+    if len(mm.factors) != len(mfs):
+        P.add("impl!=model:to_markov_model-factor-count", {"what": what, "impl": len(mm.factors), "model": len(mfs)})
+    else:
+        for phi, mf in zip(mm.factors, mfs):
+            if not _same(_canon_impl(phi, idx), _canon_model(mf, cards)):
+                P.add("impl!=model:to_markov_model-factor", {"what": what, "scope": mf[0]})
+                break
+            if any(list(phi.state_names[v]) != list(states[idx[v]]) for v in phi.variables):
+                P.add("impl!=spec:to_markov_model-state-names", {"what": what, "scope": mf[0]})
+                break
+    if P.items:
+        return
+    if not drv.call("c14_mncheck", [gn, ge, mfs]):
+        P.add("model:moral-graph-mn-invalid", {"what": what})
+    mm.check_model()
+    if not _torch(case) or TORCH_PARTITION:
+        z = float(mm.get_partition_function())
+        zm = common.frac(drv.call("c14_partition", [cards, mfs]))
+        if not _close(z, zm) or not _close(z, 1):
+            P.add("impl!=model:bn-mn-partition", {"what": what, "impl": z, "model": float(zm)})
+    allv = sorted(nodes)
+    tab = drv.call("c14_joint", [cards, mfs, allv])
+    prod = factor_product(*mm.factors) if len(mm.factors) > 1 else mm.factors[0]
+    if set(idx[v] for v in prod.variables) != set(allv) or \
+            not _same(_canon_impl(prod, idx), _canon_model([allv, tab], cards)):
+        P.add("impl!=spec:bn-mn-joint", {"what": what})
+    if _connected(nodes, ge):
+        jt, exc, order = _spy(bn.to_junction_tree)
+        if exc is not None:
+            P.add("impl:bn-to_junction_tree-raises", {"what": what, "exc": repr(exc)})
+        else:
+            check_jt(P, drv, jt, [idx[v] for v in order], gn, ge, mfs, cards, idx, states, False, tags, what)
+    else:
+        tags.append("bn disconnected (no jt)")
+    # the converted network is a new object: mutating it leaves the source alone
+    for phi in mm.factors:
+        phi.values *= 3
+    _pure(P, before, bn, what + ":moralize/to_markov_model/to_junction_tree")
+
+
+def _build_bn(case, names):
+    from pgmpy.models import BayesianNetwork
     bn = BayesianNetwork()
     bn.add_nodes_from([names[v] for v in case["nodes"]])
     bn.add_edges_from([(names[a], names[b]) for a, b in case["edges"]])
-    states = {v: _state_names(case, v) for v in range(n)}
-    mcpds = []
     for c in case["cpds"]:
-        v, ev = c["var"], c["ev"]
-        vals = [[float(_fr(x)) for x in row] for row in c["vals"]]
-        kw = {}
-        if case["states"] == "str":
-            kw["state_names"] = {names[u]: states[u] for u in [v] + ev}
-        cpd = TabularCPD(names[v], cards[v], vals, evidence=[names[u] for u in ev] or None,
-                         evidence_card=[cards[u] for u in ev] or None, **kw)
-        bn.add_cpds(cpd)
-        mcpds.append([v, ev, [_fr(x) for row in c["vals"] for x in row]])
+        bn.add_cpds(_mk_cpd(case, names, c, case.get("mismatch")))
+    return bn
+
+
+def run_bn(case, drv):
+    names = _names(case)
+    idx = {nm: i for i, nm in enumerate(names)}
+    n = case["n"]
+    P = Problems()
+    tags = ["bn n=%d" % n, "bn maxparents=%d" % max([len(c["ev"]) for c in case["cpds"]]),
+            "states=%s" % case["states"], "names=%s" % case["style"], "backend=%s" % case["backend"]]
+    key = common.canon_key(["bn", sorted(map(tuple, case["edges"])), case["cards"], case["cpds"], case.get("mismatch")])
+    bn = _build_bn(case, names)
+    if case.get("mismatch"):
+        tags.append("bn state-order mismatch rejected")
+        try:
+            bn.check_model()
+            P.add("impl:bn-state-order-mismatch-accepted", {"edge": case["mismatch"]})
+        except ValueError:
+            pass
+        return P.outcome(True, key, tags)
     bn.check_model()
-    key = common.canon_key(["bn", sorted(map(tuple, case["edges"])), cards, case["cpds"]])
-    nontrivial = len(case["edges"]) > 0
-    # moral graph
-    mg = bn.moralize()
-    mnodes, medges = drv.call("c14_moral", [case["nodes"], case["edges"]])
-    if {idx[v] for v in mg.nodes()} != set(mnodes) or _eset(mg.edges(), idx) != _eset(medges):
-        P.add("impl!=model:moralize", {"impl": sorted(map(sorted, _eset(mg.edges(), idx))),
-                                       "model": sorted(map(sorted, _eset(medges)))})
-    # BN -> MN
-    mm = bn.to_markov_model()
-    (gn, ge), mfs = drv.call("c14_bn2mn", [case["nodes"], case["edges"], mcpds])
-    mfs = [[f[0], [common.frac(x) for x in f[1]]] for f in mfs]
-    if {idx[v] for v in mm.nodes()} != set(gn) or _eset(mm.edges(), idx) != _eset(ge):
-        P.add("impl!=model:to_markov_model-graph", {"impl": sorted(map(sorted, _eset(mm.edges(), idx))),
-                                                    "model": sorted(map(sorted, _eset(ge)))})
-    cpd_list = list(bn.cpds)
-    if len(mm.factors) != len(mfs):
-        P.add("impl!=model:to_markov_model-factor-count", {"impl": len(mm.factors), "model": len(mfs)})
-    else:
-        for phi, mf, cpd in zip(mm.factors, mfs, cpd_list):
-            if not _same(_canon_impl(phi, idx), _canon_model(mf, cards)):
-                P.add("impl!=model:to_markov_model-factor", {"scope": mf[0]})
-                break
-            if any(list(phi.state_names[v]) != list(states[idx[v]]) for v in phi.variables):
-                P.add("impl!=spec:to_markov_model-state-names", {"scope": mf[0]})
-                break
-    if not P.items:
-        if not drv.call("c14_mncheck", [gn, ge, mfs]):
-            P.add("model:moral-graph-mn-invalid", {})
-        mm.check_model()
-        z = float(mm.get_partition_function())
-        zm = common.frac(drv.call("c14_partition", [cards, mfs]))
-        if not common.approx(z, zm) or not common.approx(z, 1):
-            P.add("impl!=model:bn-mn-partition", {"impl": z, "model": float(zm)})
-        allv = list(range(n))
-        tab = drv.call("c14_joint", [cards, mfs, allv])
-        prod = factor_product(*mm.factors) if len(mm.factors) > 1 else mm.factors[0]
-        if set(idx[v] for v in prod.variables) != set(allv) or \
-                not _same(_canon_impl(prod, idx), _canon_model([allv, tab], cards)):
-            P.add("impl!=spec:bn-mn-joint", {})
-        if _connected(range(n), ge):
-            jt, exc, order = _spy(bn.to_junction_tree)
-            if exc is not None:
-                P.add("impl:bn-to_junction_tree-raises", {"exc": repr(exc)})
-            else:
-                check_jt(P, drv, jt, [idx[v] for v in order], gn, ge, mfs, cards, idx, states, False, tags, "bn")
+    states = {v: _state_names(case, v) for v in range(n)}
+    _bn_core(P, drv, case, bn, case["nodes"], case["edges"], {c["var"]: c for c in case["cpds"]}, names, idx,
+             states, tags, "bn")
+    return P.outcome(len(case["edges"]) > 0, key, tags)
+
+
+def run_bnsess(case, drv):
+    """one BayesianNetwork object, converted again after every edit"""
+    names = _names(case)
+    idx = {nm: i for i, nm in enumerate(names)}
+    cards, n0 = case["cards"], case["n0"]
+    rng = random.Random(case["opseed"])
+    P = Problems()
+    tags = ["bnsess n=%d" % n0, "backend=%s" % case["backend"]]
+    key = common.canon_key(["bnsess", case["edges"], cards, case["cpds"], case["opseed"], case["nops"]])
+    bn = _build_bn(case, names)
+    nodes, edges = list(case["nodes"]), [list(e) for e in case["edges"]]
+    cp = {c["var"]: c for c in case["cpds"]}
+    topo = list(case["topo"])
+    states = {v: _state_names(case, v) for v in range(case["n"])}
+    spare = [v for v in range(case["n"]) if v not in nodes]
+
+    def newcpd(v, ev):
+        k = 1
+        for p in ev:
+            k *= cards[p]
+        cols = [_column(rng, cards[v], False) for _ in range(k)]
+        return {"var": v, "ev": list(ev), "vals": [[c[r] for c in cols] for r in range(cards[v])]}
+
+    _bn_core(P, drv, case, bn, nodes, edges, cp, names, idx, states, tags, "bnsess step 0")
+    for step in range(1, case["nops"] + 1):
+        if P.items:
+            break
+        es = {tuple(e) for e in edges}
+        cand = [(a, b) for i, a in enumerate(topo) for b in topo[i + 1:] if (a, b) not in es and len(cp[b]["ev"]) < 3]
+        op = rng.choice(["replace", "replace", "add_edge", "add_edge", "add_node"])
+        if op == "add_edge" and cand:
+            a, b = rng.choice(cand)
+            bn.add_edge(names[a], names[b])
+            edges.append([a, b])
+            ev = cp[b]["ev"] + [a]
+            rng.shuffle(ev)
+            cp[b] = newcpd(b, ev)
+            bn.add_cpds(_mk_cpd(case, names, cp[b]))          # replaces the CPD of an existing variable
+        elif op == "add_node" and spare:
+            v = spare.pop()
+            pa = rng.sample(topo, min(len(topo), rng.randint(0, 2)))
+            bn.add_node(names[v])
+            nodes.append(v)
+            for p in pa:
+                bn.add_edge(names[p], names[v])
+                edges.append([p, v])
+            topo.append(v)
+            cp[v] = newcpd(v, pa)
+            bn.add_cpds(_mk_cpd(case, names, cp[v]))
         else:
-            tags.append("bn disconnected (no jt)")
-    return P.outcome(nontrivial, key, tags)
+            op = "replace"
+            v = rng.choice(sorted(cp))
+            cp[v] = newcpd(v, cp[v]["ev"])
+            bn.add_cpds(_mk_cpd(case, names, cp[v]))
+        tags.append("bnsess op=%s" % op)
+        bn.check_model()
+        _bn_core(P, drv, case, bn, nodes, edges, cp, names, idx, states, tags, "bnsess step %d (%s)" % (step, op))
+    return P.outcome(True, key, tags)
 
 
-# ------------------------------------------------------------------ MN cases
-def _tri_check(P, drv, case, names, idx, kw, label, tags):
-    mn, _ = _build_mn(case, names)
-    ids_nodes, ids_edges, cards = case["nodes"], case["edges"], case["cards"]
+# ------------------------------------------------------------------ MN
+def _tri_check_obj(P, drv, mn, ids_nodes, ids_edges, cards, idx, kw, label, tags):
+    """mn.triangulate(**kw) on the given object whose graph is (ids_nodes, ids_edges)"""
     inplace = kw.get("inplace", False)
+    before = _snap(mn)
+    given_names = list(kw["order"]) if kw.get("order") else None
     res, exc, order = _spy(lambda: mn.triangulate(**kw))
     order = [idx[v] for v in order]
     edge_nodes = {v for e in ids_edges for v in e}
@@ -605,13 +967,19 @@ def _tri_check(P, drv, case, names, idx, kw, label, tags):
     chordal = drv.call("c14_chordal", [ids_nodes, ids_edges])
     if exc is not None:
         P.add("impl:triangulate-raises", {"label": label, "exc": repr(exc), "isolated": iso, "chordal": bool(chordal)})
-        return
+        return None
+    if given_names is not None and list(kw["order"]) != given_names:
+        P.add("impl!=spec:argument-mutated", {"label": label, "arg": "order"})
     out = mn if inplace else res
     if inplace and not chordal and res is not mn:
         P.add("impl!=model:triangulate-inplace-return", {"label": label})
+    if not inplace:
+        _pure(P, before, mn, "triangulate " + label)
+    elif _snap(mn)[2] != before[2] or _snap(mn)[0] != before[0]:
+        P.add("impl!=spec:source-mutated", {"call": "triangulate " + label, "part": "nodes/factors"})
     on = {idx[v] for v in out.nodes()}
     oe = _eset(out.edges(), idx)
-    if "order" in kw:
+    if kw.get("order"):
         given = [idx[v] for v in kw["order"]]
         eff = []
         for v in given:
@@ -619,7 +987,7 @@ def _tri_check(P, drv, case, names, idx, kw, label, tags):
                 eff.append(v)
         if not chordal and order != eff:
             P.add("harness:spied-order-differs", {"label": label, "spied": order, "given": given})
-            return
+            return None
         morder = given          # the model applies the skip rule itself
     else:
         morder = order
@@ -632,20 +1000,57 @@ def _tri_check(P, drv, case, names, idx, kw, label, tags):
                                           "impl_is_chordal_supergraph": prop_ok,
                                           "model": sorted(map(sorted, _eset(r[1]))),
                                           "impl_nodes": sorted(on), "model_nodes": sorted(r[0])})
-        return
+        return None
     # property: chordal supergraph on all the nodes
     if not _eset(ids_edges) <= oe or not drv.call("c14_chordal", [sorted(on), [sorted(e) for e in oe]]):
         P.add("impl!=spec:triangulate-not-chordal-supergraph", {"label": label, "order": morder,
                                                                "impl": sorted(map(sorted, oe))})
-        return
+        return None
     if not set(ids_nodes) <= on:
         P.add("impl!=spec:triangulate-drops-nodes", {"label": label, "lost": sorted(set(ids_nodes) - on)})
-        return
+        return None
     if iso and not chordal:
         tags.append("triangulate with isolated nodes")
-    if "order" not in kw and not chordal:
-        if not drv.call("c14_heur", [HEUR.index(kw["heuristic"]) + 1, cards, ids_nodes, ids_edges, order]):
+    if not kw.get("order") and not chordal:
+        h = HEUR.index(kw.get("heuristic", "H6")) + 1
+        if not drv.call("c14_heur", [h, cards, ids_nodes, ids_edges, order]):
             P.add("impl!=model:heuristic-order", {"label": label, "order": order})
+    return r[1]
+
+
+def _tri_check(P, drv, case, names, idx, kw, label, tags):
+    mn, _ = _build_mn(case, names)
+    _tri_check_obj(P, drv, mn, case["nodes"], case["edges"], case["cards"], idx, kw, label, tags)
+
+
+def _fg_struct(P, drv, mn, fs, names, ids_nodes, ids_edges, mfs):
+    """MarkovNetwork.to_factor_graph: the factor objects themselves, and the structure of the model"""
+    fg = mn.to_factor_graph()
+    if len(fg.factors) != len(fs) or any(a is not b for a, b in zip(fg.factors, fs)):
+        P.add("impl!=spec:to_factor_graph-factors", {"impl": len(fg.factors), "expected": len(fs)})
+    mv, mfn, mfe, mff = drv.call("c14_mn2fg", [ids_nodes, ids_edges, mfs])
+    fname = {tuple(sc): "phi_" + "_".join(names[v] for v in sc) for sc in map(tuple, mfn)}
+    exp_nodes = {names[v] for v in mv} | set(fname.values())
+    exp_edges = {frozenset((names[v], fname[tuple(sc)])) for v, sc in mfe}
+    if set(fg.nodes()) != exp_nodes or {frozenset(e) for e in fg.edges()} != exp_edges:
+        P.add("impl!=model:to_factor_graph-structure", {"impl": sorted(map(str, fg.nodes())),
+                                                        "model": sorted(map(str, exp_nodes))})
+    return fg
+
+
+def _rejects():
+    """how an invalid model is refused: ValueError, or networkx's error for a factor on a node that is gone"""
+    from networkx import NetworkXError
+    return (ValueError, NetworkXError)
+
+
+def _mn_rejected(P, mn, what):
+    for f in (mn.get_partition_function, mn.to_junction_tree, mn.triangulate):
+        try:
+            f()
+            P.add("impl:invalid-model-accepted", {"call": f.__name__, "what": what})
+        except _rejects():
+            pass
 
 
 def run_mn(case, drv):
@@ -654,15 +1059,19 @@ def run_mn(case, drv):
     n, cards = case["n"], case["cards"]
     ids_nodes, ids_edges = case["nodes"], case["edges"]
     P = Problems()
-    tags = ["mn shape=%s" % case["shape"], "mn n=%d" % n, "mn factors=%d" % len(case["factors"])]
+    tags = ["mn shape=%s" % case["shape"], "mn n=%d" % n, "mn factors=%d" % len(case["factors"]),
+            "values=%s" % case.get("vstyle"), "states=%s" % case["states"], "names=%s" % case["style"],
+            "backend=%s" % case["backend"], "valsrc=%s" % case.get("valsrc"),
+            "max factor width=%d" % max(len(f["vars"]) for f in case["factors"])]
     if case["dup"]:
         tags.append("mn dup=%s" % case["dup"])
     key = common.canon_key(["mn", sorted(map(tuple, ids_edges)), n, cards, case["factors"]])
     nontrivial = len(ids_edges) > 0 and any(len(f["vars"]) >= 2 for f in case["factors"])
     mfs = [_mfac(f) for f in case["factors"]]
     states = {v: _state_names(case, v) for v in range(n)}
-    has_equal = _has_equal(case)
+    has_equal = _has_equal(case["factors"], cards)
     mn, fs = _build_mn(case, names)
+    before = _snap(mn)
     # check_model
     mok = drv.call("c14_mncheck", [ids_nodes, ids_edges, mfs])
     try:
@@ -675,21 +1084,17 @@ def run_mn(case, drv):
         return P.outcome(nontrivial, key, tags)
     if not iok:
         tags.append("mn rejected (%s)" % case["malformed"])
-        for f in (mn.get_partition_function, mn.to_junction_tree, mn.triangulate):
-            try:
-                f()
-                P.add("impl:invalid-model-accepted", {"call": f.__name__})
-            except ValueError:
-                pass
+        _mn_rejected(P, mn, "malformed")
         return P.outcome(nontrivial, key, tags)
-    # partition function and joint
-    from pgmpy.factors import factor_product
-    z = float(mn.get_partition_function())
-    zm = common.frac(drv.call("c14_partition", [cards, mfs]))
-    if not common.approx(z, zm):
-        P.add("impl!=model:partition", {"impl": z, "model": float(zm)})
+    # partition function
+    if not _torch(case) or TORCH_PARTITION:
+        z = float(mn.get_partition_function())
+        zm = common.frac(drv.call("c14_partition", [cards, mfs]))
+        if not _close(z, zm):
+            P.add("impl!=model:partition", {"impl": z, "model": float(zm)})
+        _pure(P, before, mn, "get_partition_function")
     # markov blanket, chordality
-    for v in range(n):
+    for v in ids_nodes:
         if {idx[u] for u in mn.markov_blanket(names[v])} != set(drv.call("c14_blanket", [ids_nodes, ids_edges, v])):
             P.add("impl!=model:markov_blanket", {"v": v})
             break
@@ -699,35 +1104,316 @@ def run_mn(case, drv):
     tags.append("mn chordal=%s" % chordal)
     # MN -> FG: structure and the factor multiset (no FactorGraph API beyond construction here)
     if all(isinstance(x, str) for x in names):
-        fg = mn.to_factor_graph()
-        if len(fg.factors) != len(fs) or any(a is not b for a, b in zip(fg.factors, fs)):
-            P.add("impl!=spec:to_factor_graph-factors", {"impl": len(fg.factors), "expected": len(fs)})
-        mv, mfn, mfe, mff = drv.call("c14_mn2fg", [ids_nodes, ids_edges, mfs])
-        fname = {tuple(s): "phi_" + "_".join(names[v] for v in s) for s in map(tuple, mfn)}
-        exp_nodes = {names[v] for v in mv} | set(fname.values())
-        exp_edges = {frozenset((names[v], fname[tuple(s)])) for v, s in mfe}
-        if set(fg.nodes()) != exp_nodes or {frozenset(e) for e in fg.edges()} != exp_edges:
-            P.add("impl!=model:to_factor_graph-structure", {"impl": sorted(map(str, fg.nodes())),
-                                                            "model": sorted(map(str, exp_nodes))})
-    # triangulation: every heuristic and explicit orders, inplace both ways
-    for h in HEUR:
+        _fg_struct(P, drv, mn, fs, names, ids_nodes, ids_edges, mfs)
+        _pure(P, before, mn, "to_factor_graph")
+    # triangulation: every heuristic, the default, order=[] and explicit orders, inplace both ways
+    wide = n >= 9
+    for h in (HEUR if not wide else HEUR[:1] + HEUR[5:]):
         for inplace in (False, True):
             _tri_check(P, drv, case, names, idx, {"heuristic": h, "inplace": inplace}, "%s inplace=%s" % (h, inplace), tags)
+    _tri_check(P, drv, case, names, idx, {}, "default", tags)
+    _tri_check(P, drv, case, names, idx, {"order": [], "inplace": True}, "order=[] inplace=True", tags)
     for o in case["orders"]:
         for inplace in (False, True):
             _tri_check(P, drv, case, names, idx, {"order": [names[v] for v in o], "inplace": inplace},
                        "order inplace=%s" % inplace, tags)
-    # junction tree (connected graphs only)
+    # junction tree (connected graphs only), twice on the same object
     if _connected(ids_nodes, ids_edges):
-        jt, exc, order = _spy(mn.to_junction_tree)
-        if exc is not None:
-            P.add("impl:to_junction_tree-raises", {"exc": repr(exc)})
-        else:
+        jts = []
+        for rep in (1, 2):
+            jt, exc, order = _spy(mn.to_junction_tree)
+            if exc is not None:
+                P.add("impl:to_junction_tree-raises", {"exc": repr(exc), "call": rep})
+                break
             check_jt(P, drv, jt, [idx[v] for v in order], ids_nodes, ids_edges, mfs, cards, idx, states,
-                     has_equal, tags, "mn")
+                     has_equal, tags if rep == 1 else [], "mn call %d" % rep)
+            _pure(P, before, mn, "to_junction_tree")
+            jts.append(jt)
+            for phi in jt.factors:          # mutate the result: the source and the next result are unaffected
+                phi.values *= 3
+        if len(jts) == 2 and (jts[0] is jts[1] or any(a is b for a in jts[0].factors for b in jts[1].factors)):
+            P.add("impl!=spec:junction-trees-share-objects", {})
     else:
         tags.append("mn disconnected (no jt)")
     return P.outcome(nontrivial, key, tags)
+
+
+def run_sess(case, drv):
+    """one MarkovNetwork object: conversions are re-run after every mutation; oracle = model on the current state"""
+    from pgmpy.factors.discrete import DiscreteFactor
+    names = _names(case)
+    idx = {nm: i for i, nm in enumerate(names)}
+    cards = case["cards"]
+    rng = random.Random(case["opseed"])
+    P = Problems()
+    tags = ["sess n=%d" % case["n0"], "backend=%s" % case["backend"], "states=%s" % case["states"]]
+    key = common.canon_key(["sess", case["edges"], cards, case["factors"], case["opseed"], case["nops"]])
+    states = {v: _state_names(case, v) for v in range(case["n"])}
+    mn, objs = _build_mn(case, names)
+    nodes, edges = list(case["nodes"]), [list(e) for e in case["edges"]]
+    fd = [dict(f) for f in case["factors"]]
+    spare = [v for v in range(case["n"]) if v not in nodes]
+    strnames = all(isinstance(x, str) for x in names)
+    sess_h = rng.choice(HEUR)       # the same call is repeated after every edit
+
+    def newf(scope):
+        k = 1
+        for v in scope:
+            k *= cards[v]
+        return {"vars": list(scope), "vals": _vals(rng, k)}
+
+    def drop(i):
+        """mn.remove_factors(objs[i]): list.remove takes the FIRST factor that is, or equals, it"""
+        x = objs[i]
+        mn.remove_factors(x)
+        cx = _canon_model(_mfac(fd[i]), cards)
+        j = next(j for j in range(len(objs)) if objs[j] is x or _canon_model(_mfac(fd[j]), cards) == cx)
+        del objs[j]
+        del fd[j]
+
+    def core(what):
+        mfs = [_mfac(f) for f in fd]
+        if len(mn.factors) != len(objs) or any(a is not b for a, b in zip(mn.factors, objs)):
+            P.add("impl!=model:session-factor-list", {"what": what, "impl": len(mn.factors), "expected": len(objs)})
+            return False
+        if {idx[v] for v in mn.nodes()} != set(nodes) or _eset(mn.edges(), idx) != _eset(edges):
+            P.add("impl!=model:session-graph", {"what": what})
+            return False
+        before = _snap(mn)
+        mok = bool(drv.call("c14_mncheck", [nodes, edges, mfs]))
+        try:
+            mn.check_model()
+            iok = True
+        except _rejects():
+            iok = False
+        if iok != mok:
+            P.add("impl!=model:check_model", {"what": what, "impl": iok, "model": mok})
+            return False
+        if not iok:
+            tags.append("sess state rejected")
+            _mn_rejected(P, mn, what)
+            return False
+        if not fd:
+            return False
+        if {v for f in fd for v in f["vars"]} != set(nodes):
+            # check_model only compares the NUMBER of nodes with the number of covered variables; a unary factor
+            # on a removed node next to an uncovered node passes it, and get_partition_function refuses
+            tags.append("sess state rejected (scope != nodes)")
+            try:
+                mn.get_partition_function()
+                P.add("impl:invalid-model-accepted", {"call": "get_partition_function", "what": what})
+            except _rejects():
+                pass
+            return False
+        if not _torch(case) or TORCH_PARTITION:
+            z = float(mn.get_partition_function())
+            zm = common.frac(drv.call("c14_partition", [cards, mfs]))
+            if not _close(z, zm):
+                P.add("impl!=model:partition", {"what": what, "impl": z, "model": float(zm)})
+        chordal = bool(drv.call("c14_chordal", [nodes, edges]))
+        if bool(mn.is_triangulated()) != chordal:
+            P.add("impl!=model:is_triangulated", {"what": what, "impl": bool(mn.is_triangulated()), "model": chordal})
+        _tri_check_obj(P, drv, mn, nodes, edges, cards, idx, {"heuristic": sess_h}, what + " tri", tags)
+        o = sorted({v for e in edges for v in e})
+        rng.shuffle(o)
+        _tri_check_obj(P, drv, mn, nodes, edges, cards, idx, {"order": [names[v] for v in o]}, what + " tri order", tags)
+        if strnames:
+            _fg_struct(P, drv, mn, objs, names, nodes, edges, mfs)
+        if _connected(nodes, edges):
+            jt, exc, order = _spy(mn.to_junction_tree)
+            if exc is not None:
+                P.add("impl:to_junction_tree-raises", {"what": what, "exc": repr(exc)})
+            else:
+                check_jt(P, drv, jt, [idx[v] for v in order], nodes, edges, mfs, cards, idx, states,
+                         _has_equal(fd, cards), [], what)
+        _pure(P, before, mn, what)
+        return True
+
+    valid = core("sess step 0")
+    for step in range(1, case["nops"] + 1):
+        if P.items:
+            break
+        es = {frozenset(e) for e in edges}
+        non = [(a, b) for a in nodes for b in nodes if a < b and frozenset((a, b)) not in es]
+        ops = ["add_edge", "remove_edge", "rewire", "rewire", "replace_factor", "swap_node", "add_factors", "add_factors_bad",
+               "remove_factors", "self_loop", "add_node", "remove_node", "poke", "tri_inplace", "mutate_jt"]
+        if step == case["nops"]:
+            ops.append("clear")
+        op = rng.choice(ops)
+        if op == "add_edge" and non:
+            a, b = rng.choice(non)
+            mn.add_edge(names[a], names[b])
+            edges.append([a, b])
+        elif op == "remove_edge" and edges:
+            a, b = rng.choice(edges)
+            if rng.random() < 0.75:
+                while True:
+                    hit = [i for i, f in enumerate(fd) if a in f["vars"] and b in f["vars"]]
+                    if not hit:
+                        break
+                    drop(hit[0])
+            mn.remove_edge(names[a], names[b])                 # inherited from networkx
+            edges = [e for e in edges if frozenset(e) != frozenset((a, b))]
+        elif op == "rewire" and edges and non:
+            # one edge out, another in: node, edge and (if no factor sat on it) factor COUNTS are unchanged
+            free = [e for e in edges if not any(e[0] in f["vars"] and e[1] in f["vars"] for f in fd)] or edges
+            a, b = rng.choice(free)
+            while True:
+                hit = [i for i, f in enumerate(fd) if a in f["vars"] and b in f["vars"]]
+                if not hit:
+                    break
+                drop(hit[0])
+            mn.remove_edge(names[a], names[b])
+            edges = [e for e in edges if frozenset(e) != frozenset((a, b))]
+            c, d = rng.choice(non)
+            mn.add_edge(names[c], names[d])
+            edges.append([c, d])
+            for v in (a, b):            # keep every node covered
+                if v in nodes and not any(v in f["vars"] for f in fd):
+                    f = newf([v])
+                    phi = _mk_factor(case, names, f)
+                    mn.add_factors(phi)
+                    objs.append(phi)
+                    fd.append(f)
+        elif op == "swap_node" and spare and len(nodes) > 1:
+            # a node leaves with its k factors, another one arrives with k unary factors (and the same degree
+            # when possible): the NUMBER of nodes and of factors is unchanged, the variable set is not
+            v = rng.choice(nodes)
+            k = 0
+            while True:
+                hit = [i for i, f in enumerate(fd) if v in f["vars"]]
+                if not hit:
+                    break
+                drop(hit[0])
+                k += 1
+            nb = [e[0] if e[1] == v else e[1] for e in edges if v in e]
+            mn.remove_node(names[v])
+            nodes.remove(v)
+            edges = [e for e in edges if v not in e]
+            w = spare.pop()
+            mn.add_node(names[w])
+            nodes.append(w)
+            for u in nb:
+                mn.add_edge(names[w], names[u])
+                edges.append([w, u])
+            for _ in range(max(k, 1)):
+                f = newf([w])
+                phi = _mk_factor(case, names, f)
+                mn.add_factors(phi)
+                objs.append(phi)
+                fd.append(f)
+            for u in nodes:             # keep every node covered
+                if not any(u in f["vars"] for f in fd):
+                    f = newf([u])
+                    phi = _mk_factor(case, names, f)
+                    mn.add_factors(phi)
+                    objs.append(phi)
+                    fd.append(f)
+        elif op == "replace_factor" and fd:
+            i = rng.randrange(len(fd))
+            f = newf(fd[i]["vars"])             # same scope, other values: the factor COUNT is unchanged
+            drop(i)
+            phi = _mk_factor(case, names, f)
+            mn.add_factors(phi)
+            objs.append(phi)
+            fd.append(f)
+        elif op == "add_factors" and nodes:
+            scope = rng.choice(edges) if edges and rng.random() < 0.6 else [rng.choice(nodes)]
+            f = newf(scope)
+            phi = _mk_factor(case, names, f)
+            mn.add_factors(phi)
+            objs.append(phi)
+            fd.append(f)
+        elif op == "add_factors_bad" and nodes:
+            good = [newf([rng.choice(nodes)]) for _ in range(rng.randint(1, 2))]
+            ghost = case["n"]       # an id that is not a node; the name below is not a node either
+            new = good[:1] + [{"vars": [rng.choice(nodes), ghost], "vals": _vals(rng, cards[0])}] + good[1:]
+            phis = []
+            for f in new:
+                if ghost in f["vars"]:
+                    v = [u for u in f["vars"] if u != ghost][0]
+                    phis.append(DiscreteFactor([names[v], "__ghost__"], [cards[v], 1],
+                                               [float(_fr(x)) for x in _vals(rng, cards[v])]))
+                else:
+                    phis.append(_mk_factor(case, names, f))
+            snapshot_args = [id(x) for x in phis]
+            try:
+                mn.add_factors(*phis)
+                P.add("impl:add_factors-accepts-unknown-variable", {})
+            except ValueError:
+                pass
+            after, okflag = drv.call("c14_addfactors", [nodes, [_mfac(f) for f in fd],
+                                                       [[f["vars"], [_fr(x) for x in f["vals"]]] for f in new]])
+            kept = len(after) - len(fd)
+            if okflag or [id(x) for x in phis] != snapshot_args:
+                P.add("model:add_factors", {"ok": okflag})
+            objs.extend(phis[:kept])
+            fd.extend(new[:kept])
+        elif op == "remove_factors" and fd:
+            drop(rng.randrange(len(fd)))
+        elif op == "self_loop" and nodes:
+            a = rng.choice(nodes)
+            try:
+                mn.add_edge(names[a], names[a])
+                P.add("impl:self-loop-accepted", {})
+            except ValueError:
+                pass
+        elif op == "add_node" and spare:
+            v = spare.pop()
+            mn.add_node(names[v])
+            nodes.append(v)
+            if rng.random() < 0.7:
+                f = newf([v])
+                phi = _mk_factor(case, names, f)
+                mn.add_factors(phi)
+                objs.append(phi)
+                fd.append(f)
+        elif op == "remove_node" and len(nodes) > 1:
+            v = rng.choice(nodes)
+            if rng.random() < 0.75:
+                while True:
+                    hit = [i for i, f in enumerate(fd) if v in f["vars"]]
+                    if not hit:
+                        break
+                    drop(hit[0])
+            mn.remove_node(names[v])                            # inherited from networkx
+            nodes.remove(v)
+            edges = [e for e in edges if v not in e]
+        elif op == "poke" and fd:
+            i = rng.randrange(len(fd))
+            k = rng.randrange(len(fd[i]["vals"]))
+            nv = _vals(rng, 1)[0]
+            shape = [cards[v] for v in fd[i]["vars"]]
+            t, r = [], k
+            for c in reversed(shape):
+                t.append(r % c)
+                r //= c
+            objs[i].values[tuple(reversed(t))] = float(_fr(nv))   # in-place edit of a factor's table
+            for j in range(len(fd)):
+                if objs[j] is objs[i]:
+                    fd[j] = dict(fd[j])
+                    fd[j]["vals"] = [list(x) for x in fd[j]["vals"]]
+                    fd[j]["vals"][k] = nv
+        elif op == "tri_inplace" and valid:
+            h = rng.choice(HEUR)
+            ne = _tri_check_obj(P, drv, mn, nodes, edges, cards, idx, {"heuristic": h, "inplace": True},
+                                "sess tri_inplace " + h, tags)
+            if ne is None:
+                break
+            edges = [list(e) for e in ne]
+        elif op == "mutate_jt" and valid and _connected(nodes, edges):
+            jt = mn.to_junction_tree()
+            for phi in jt.factors:
+                phi.values *= 3
+            jt.remove_node(list(jt.nodes())[0])
+        elif op == "clear":
+            mn.clear()                                          # inherited from networkx; the factors stay
+            nodes, edges = [], []
+        else:
+            op = "none"
+        tags.append("sess op=%s" % op)
+        valid = core("sess step %d (%s)" % (step, op))
+    return P.outcome(True, key, tags)
 
 
 def run_mn2fg(case, drv):
@@ -736,7 +1422,7 @@ def run_mn2fg(case, drv):
     idx = {nm: i for i, nm in enumerate(names)}
     cards = case["cards"]
     P = Problems()
-    tags = ["mn2fg n=%d" % case["n"]]
+    tags = ["mn2fg n=%d" % case["n"], "names=%s" % case["style"]]
     key = common.canon_key(["mn2fg", sorted(map(tuple, case["edges"])), cards, case["factors"]])
     mfs = [_mfac(f) for f in case["factors"]]
     mn, fs = _build_mn(case, names)
@@ -750,7 +1436,7 @@ def run_mn2fg(case, drv):
     zm = common.frac(drv.call("c14_partition", [cards, mfs]))
     try:
         z = float(fg.get_partition_function())
-        if not common.approx(z, zm):
+        if not _close(z, zm):
             P.add("impl!=model:fg-partition", {"impl": z, "model": float(zm)})
         back = fg.to_markov_model()
         if len(back.factors) != len(fs) or _eset(back.edges(), idx) != _eset(mn.edges(), idx):
@@ -767,29 +1453,29 @@ def run_mn2fg(case, drv):
     return P.outcome(True, key, tags)
 
 
-# ------------------------------------------------------------------ FG cases
-def run_fg(case, drv):
+# ------------------------------------------------------------------ FG
+def _build_fg(case, names, fs):
     from pgmpy.models import FactorGraph
-    names = _names(case)
-    idx = {nm: i for i, nm in enumerate(names)}
-    n, cards = case["n"], case["cards"]
-    P = Problems()
-    tags = ["fg n=%d" % n, "fg factors=%d" % len(case["factors"])]
-    if case["dup"]:
-        tags.append("fg dup=%s" % case["dup"])
-    key = common.canon_key(["fg", n, cards, case["factors"]])
-    nontrivial = any(len(f["vars"]) >= 2 for f in case["factors"])
-    mfs = [_mfac(f) for f in case["factors"]]
-    states = {v: _state_names(case, v) for v in range(n)}
-    has_equal = _has_equal(case)
-    fs = _mk_factors(case, names, case["factors"])
-    fg = FactorGraph()
     used = sorted({v for f in case["factors"] for v in f["vars"]})
-    fg.add_nodes_from([names[v] for v in used])
-    for phi in fs:
-        fg.add_node(phi)
-        fg.add_edges_from([(v, phi) for v in phi.variables])
+    el = [(v, phi) for phi in fs for v in phi.variables]
+    if case.get("build") == "ebunch" and el:
+        fg = FactorGraph(el)
+    else:
+        fg = FactorGraph()
+        fg.add_nodes_from([names[v] for v in used])
+        for phi in fs:
+            fg.add_node(phi)
+        fg.add_edges_from(el)
     fg.add_factors(*fs)
+    return fg
+
+
+def _fg_core(P, drv, case, fg, fs, fd, names, idx, states, tags, what):
+    from pgmpy.factors.discrete import DiscreteFactor
+    cards = case["cards"]
+    mfs = [_mfac(f) for f in fd]
+    has_equal = _has_equal(fd, cards)
+    before = _snap(fg)
     st, r = drv.call_e("c14_fg2mn", [cards, mfs])
     try:
         mm = fg.to_markov_model()
@@ -797,7 +1483,6 @@ def run_fg(case, drv):
     except ValueError as e:
         mm, exc = None, e
     if exc is not None:
-        from pgmpy.factors.discrete import DiscreteFactor
         nfn = sum(1 for x in fg.nodes() if isinstance(x, DiscreteFactor))
         # exactly: equal factor objects became one networkx node, and check_model counted them
         if st == "err" and r == 5 and has_equal and nfn < len(fs) and "factor nodes" in str(exc):
@@ -805,43 +1490,141 @@ def run_fg(case, drv):
             P.add("impl!=spec:fg-equal-factors-rejected", {"exc": repr(exc)},
                   finding="equal-factors-collapse-factorgraph")
         else:
-            P.add("impl!=model:fg-to_markov_model-raises", {"exc": repr(exc), "model": [st, r]})
-        return P.outcome(nontrivial, key, tags)
+            P.add("impl!=model:fg-to_markov_model-raises", {"what": what, "exc": repr(exc), "model": [st, r]})
+        return None
     if st != "ok":
-        P.add("impl!=model:fg-to_markov_model", {"model_err": r})
-        return P.outcome(nontrivial, key, tags)
+        P.add("impl!=model:fg-to_markov_model", {"what": what, "model_err": r})
+        return None
     (gn, ge), mf2 = r
     if {idx[v] for v in mm.nodes()} != set(gn) or _eset(mm.edges(), idx) != _eset(ge):
-        P.add("impl!=model:fg-to_markov_model-graph", {"impl": sorted(map(sorted, _eset(mm.edges(), idx))),
+        P.add("impl!=model:fg-to_markov_model-graph", {"what": what, "impl": sorted(map(sorted, _eset(mm.edges(), idx))),
                                                        "model": sorted(map(sorted, _eset(ge)))})
     if len(mm.factors) != len(fs) or any(a is not b for a, b in zip(mm.factors, fs)):
-        P.add("impl!=spec:fg-to_markov_model-factors", {"impl": len(mm.factors), "expected": len(fs)})
+        P.add("impl!=spec:fg-to_markov_model-factors", {"what": what, "impl": len(mm.factors), "expected": len(fs)})
     mf2 = [[f[0], [common.frac(x) for x in f[1]]] for f in mf2]
     if [(_canon_model(a, cards)) for a in mf2] != [_canon_model(a, cards) for a in mfs]:
         P.add("model:fg-to_markov_model-factors", {})
     if P.items:
-        return P.outcome(nontrivial, key, tags)
-    zm = common.frac(drv.call("c14_partition", [cards, mfs]))
-    z1, z2 = float(fg.get_partition_function()), float(mm.get_partition_function())
-    if not common.approx(z1, zm) or not common.approx(z2, zm):
-        P.add("impl!=model:fg-partition", {"fg": z1, "mn": z2, "model": float(zm)})
+        return None
+    if not _torch(case) or TORCH_PARTITION:
+        zm = common.frac(drv.call("c14_partition", [cards, mfs]))
+        z1, z2 = float(fg.get_partition_function()), float(mm.get_partition_function())
+        if not _close(z1, zm) or not _close(z2, zm):
+            P.add("impl!=model:fg-partition", {"what": what, "fg": z1, "mn": z2, "model": float(zm)})
     if not P.items and _connected(gn, ge):
         jt, exc, order = _spy(fg.to_junction_tree)
         if exc is not None:
-            P.add("impl:fg-to_junction_tree-raises", {"exc": repr(exc)})
+            P.add("impl:fg-to_junction_tree-raises", {"what": what, "exc": repr(exc)})
         else:
-            check_jt(P, drv, jt, [idx[v] for v in order], gn, ge, mfs, cards, idx, states, has_equal, tags, "fg")
+            check_jt(P, drv, jt, [idx[v] for v in order], gn, ge, mfs, cards, idx, states, has_equal, tags, what)
+    if _snap(fg) != before:
+        P.add("impl!=spec:source-mutated", {"call": what})
+    return mm
+
+
+def run_fg(case, drv):
+    names = _names(case)
+    idx = {nm: i for i, nm in enumerate(names)}
+    n, cards = case["n"], case["cards"]
+    P = Problems()
+    tags = ["fg n=%d" % n, "fg factors=%d" % len(case["factors"]), "backend=%s" % case["backend"]]
+    if case["dup"]:
+        tags.append("fg dup=%s" % case["dup"])
+    key = common.canon_key(["fg", n, cards, case["factors"], case.get("malformed")])
+    nontrivial = any(len(f["vars"]) >= 2 for f in case["factors"])
+    states = {v: _state_names(case, v) for v in range(n)}
+    fs = _mk_factors(case, names, case["factors"])
+    fg = _build_fg(case, names, fs)
+    if case.get("malformed"):
+        from pgmpy.factors.discrete import DiscreteFactor
+        used = sorted({v for f in case["factors"] for v in f["vars"]})
+        if case["malformed"] == "varvar" and len(used) >= 2:
+            fg.add_edge(names[used[0]], names[used[1]])         # variable - variable edge
+        else:
+            extra = DiscreteFactor([names[used[0]]], [cards[used[0]]], [float(k + 5) for k in range(cards[used[0]])])
+            fg.add_node(extra)                                  # a factor node whose factor was never added
+            fg.add_edge(names[used[0]], extra)
+        tags.append("fg rejected (%s)" % case["malformed"])
+        for f in (fg.to_markov_model, fg.to_junction_tree, fg.get_partition_function):
+            try:
+                f()
+                P.add("impl:invalid-factor-graph-accepted", {"call": f.__name__, "malformed": case["malformed"]})
+            except ValueError:
+                pass
+        return P.outcome(nontrivial, key, tags)
+    _fg_core(P, drv, case, fg, fs, case["factors"], names, idx, states, tags, "fg")
     return P.outcome(nontrivial, key, tags)
 
 
+def run_fgsess(case, drv):
+    """one FactorGraph object, converted again after factors are added / removed and after its results are mutated"""
+    names = _names(case)
+    idx = {nm: i for i, nm in enumerate(names)}
+    cards = case["cards"]
+    rng = random.Random(case["opseed"])
+    P = Problems()
+    tags = ["fgsess n=%d" % case["n"], "backend=%s" % case["backend"]]
+    key = common.canon_key(["fgsess", cards, case["factors"], case["opseed"], case["nops"]])
+    states = {v: _state_names(case, v) for v in range(case["n"])}
+    fd = [dict(f) for f in case["factors"]]
+    if _has_equal(fd, cards):
+        return ok(nontrivial=False, key=key, tags=tags + ["fgsess skipped (equal factors)"])
+    fs = _mk_factors(case, names, fd)
+    fg = _build_fg(case, names, fs)
+    mm = _fg_core(P, drv, case, fg, fs, fd, names, idx, states, tags, "fgsess step 0")
+    for step in range(1, case["nops"] + 1):
+        if P.items:
+            break
+        used = sorted({v for f in fd for v in f["vars"]})
+        op = rng.choice(["add", "add", "remove", "mutate_mm"])
+        if op == "remove":
+            cand = [i for i in range(len(fd))
+                    if all(any(v in g["vars"] for j, g in enumerate(fd) if j != i) for v in fd[i]["vars"])]
+            if not cand:
+                op = "add"
+            else:
+                i = rng.choice(cand)
+                fg.remove_factors(fs[i])                        # also removes the factor node
+                del fs[i]
+                del fd[i]
+        if op == "mutate_mm" and mm is not None and mm.factors:
+            mm.remove_factors(mm.factors[0])                    # the converted network is a separate object
+            mm.add_edge("__m1__", "__m2__")
+        elif op == "mutate_mm":
+            op = "add"
+        if op == "add":
+            scope = rng.sample(used, min(len(used), rng.randint(1, 2)))
+            k = 1
+            for v in scope:
+                k *= cards[v]
+            f = {"vars": scope, "vals": _vals(rng, k)}
+            if _has_equal(fd + [f], cards):
+                continue
+            phi = _mk_factor(case, names, f)
+            fg.add_node(phi)
+            fg.add_edges_from([(v, phi) for v in phi.variables])
+            fg.add_factors(phi)
+            fs.append(phi)
+            fd.append(f)
+        tags.append("fgsess op=%s" % op)
+        mm = _fg_core(P, drv, case, fg, fs, fd, names, idx, states, tags, "fgsess step %d (%s)" % (step, op))
+    return P.outcome(True, key, tags)
+
+
+RUNNERS = {"bn": run_bn, "mn": run_mn, "mn2fg": run_mn2fg, "fg": run_fg, "sess": run_sess, "bnsess": run_bnsess,
+           "fgsess": run_fgsess}
+
+
 def run_case(case, drv):
-    k = case["kind"]
-    if k == "bn":
-        return run_bn(case, drv)
-    if k == "mn":
-        return run_mn(case, drv)
-    if k == "mn2fg":
-        return run_mn2fg(case, drv)
-    if k == "fg":
-        return run_fg(case, drv)
-    raise ValueError(k)
+    case.setdefault("backend", "numpy")
+    case.setdefault("style", "str")
+    case.setdefault("states", "default")
+    f = RUNNERS[case["kind"]]
+    if case["backend"] != "torch":
+        return f(case, drv)
+    from pgmpy import config
+    config.set_backend("torch")
+    try:
+        return f(case, drv)
+    finally:
+        config.set_backend("numpy")
